@@ -192,7 +192,7 @@ def run_genver_case(case):
 
 
 # ---------------------------------------------------------------- (3) key2jwk / jwk2key
-KEYTYPES = ["rsa2048", "rsa3072", "P-256", "P-384", "P-521", "secp256k1", "ed25519", "ed448", "oct32", "oct48", "oct64", "oct100", "oct512", "pss",
+KEYTYPES = ["rsa2048", "rsa3072", "rsa4104", "rsa8192", "P-256", "P-384", "P-521", "secp256k1", "ed25519", "ed448", "oct32", "oct48", "oct64", "oct100", "oct512", "pss",
             "oct33:0a", "oct48:0a", "oct64:0a", "oct40:0d", "oct64:00", "oct32:0a", "oct50:20",
             # the same kinds of key in the other standard file encodings: EC public point compressed / hybrid, traditional (SEC1 / PKCS#1) private key PEM
             "P-256/compressed", "P-384/compressed", "P-521/compressed", "secp256k1/compressed", "P-521/hybrid", "P-256/hybrid", "P-256/trad", "P-521/trad", "rsa2048/trad"]   # oct keys are arbitrary bytes: newline / CR / NUL / space at the end
@@ -372,7 +372,7 @@ def main():
     if not stats["violations"]: run_property(run_convert_case, convert_cases, nc, "convert")
     # many keys in one key2jwk / jwk2key run: 255, 256, 257 key files (counts at which a narrow counter or a fixed table gives out)
     if not stats["violations"] and A.worker in (4, 5, 6):
-        n = {4: 255, 5: 256, 6: 257}[A.worker]; types = ["oct32", "ed25519", "P-256", "oct48:0a", "P-521/compressed", "rsa2048"]
+        n = {4: 255, 5: 256, 6: 257}[A.worker]; types = ["oct32", "ed25519", "P-256", "oct48:0a", "P-521/compressed", "rsa2048", "rsa8192", "rsa4104"]
         case = {"keys": [(types[i % len(types)], "priv" if i % 3 else "pub", bool(i & 1), i % 3) for i in range(n)], "o_style": 0, "d_style": 0, "quiet": True, "flag_style": 0}
         cls("key2jwk-runs-with-255-257-keys")
         try: guarded(run_convert_case, case)
